@@ -457,3 +457,27 @@ func (c *CFG) WithoutErr() *CFG {
 	}
 	return &d
 }
+
+// PermuteRules reorders the rules (declaration order): rule i moves to
+// position perm[i]. References and the start rule follow.
+func (g *Grammar) PermuteRules(perm []int) {
+	nr := make([]Rule, len(g.Rules))
+	for i, r := range g.Rules {
+		nr[perm[i]] = r
+	}
+	fix := func(r *Ref) {
+		if r.Kind == KRule {
+			r.Idx = perm[r.Idx]
+		}
+	}
+	for ri := range nr {
+		for pi := range nr[ri].Prods {
+			for ti := range nr[ri].Prods[pi].Terms {
+				fix(&nr[ri].Prods[pi].Terms[ti].Ref)
+				fix(&nr[ri].Prods[pi].Terms[ti].Sep)
+			}
+		}
+	}
+	g.Rules = nr
+	g.Start = perm[g.Start]
+}
